@@ -18,6 +18,7 @@ import (
 	"github.com/influxdata/kapacitor/pipeline"
 	"github.com/influxdata/kapacitor/tick"
 	"github.com/influxdata/kapacitor/tick/ast"
+	"github.com/influxdata/kapacitor/tick/stateful"
 
 	"verifharness/core"
 	"verifharness/kit"
@@ -122,6 +123,9 @@ func (prop) Cases(tier string, seed uint64) []core.Case {
 			cs = append(cs, core.Case{ID: fmt.Sprintf("data-%d-%d", i, n), Kind: "data", Seed: seed*139 + uint64(i), Params: map[string]interface{}{"node": n}})
 		}
 	}
+	for n := range emptyBatchNodes {
+		cs = append(cs, core.Case{ID: fmt.Sprintf("emptybatch-%d", n), Kind: "emptybatch", Seed: seed, Params: map[string]interface{}{"node": n}})
+	}
 	return cs
 }
 
@@ -158,6 +162,8 @@ func (prop) Run(x *core.Ctx) {
 		runLeak(x)
 	case "data":
 		runData(x)
+	case "emptybatch":
+		runEmptyBatch(x)
 	case "udf":
 		runUDFPeer(x)
 	case "lamdata":
@@ -434,18 +440,48 @@ func runJSON(x *core.Ctx) {
 		return
 	}
 	x.Count("json_seed_documents", int64(len(docs)))
-	for i := 0; i < x.Case.N; i++ {
-		d := docs[r.Intn(len(docs))]
-		kind, doc := d[0], d[1:]
-		var v interface{}
-		if json.Unmarshal([]byte(doc), &v) != nil {
+	// systematic pass over the lambda documents: every key of every object set to null / removed /
+	// replaced by a value of another JSON type, one at a time
+	var systematic []string
+	for _, d := range docs {
+		if d[0] != 'L' {
 			continue
 		}
-		mutateJSON(r, &v, r.Range(1, 3))
-		b, _ := json.Marshal(v)
-		in := string(b)
-		if r.Chance(0.1) {
-			in = in[:r.Intn(len(in)+1)] // truncated document
+		for _, repl := range []interface{}{nil, "DELETE", 1.5, "str", true, []interface{}{}, map[string]interface{}{}} {
+			for k := 0; ; k++ {
+				var v interface{}
+				if json.Unmarshal([]byte(d[1:]), &v) != nil {
+					break
+				}
+				if !setNthKey(&v, k, repl) {
+					break
+				}
+				b, _ := json.Marshal(v)
+				systematic = append(systematic, "L"+string(b))
+			}
+		}
+	}
+	x.Count("json_systematic_lambda_documents", int64(len(systematic)))
+	for i := 0; i < x.Case.N+len(systematic); i++ {
+		var kind byte
+		var in string
+		if i >= x.Case.N {
+			d := systematic[i-x.Case.N]
+			kind, in = d[0], d[1:]
+		} else {
+			d := docs[r.Intn(len(docs))]
+			var doc string
+			kind, doc = d[0], d[1:]
+			var v interface{}
+			if json.Unmarshal([]byte(doc), &v) != nil {
+				continue
+			}
+			mutateJSON(r, &v, r.Range(1, 3))
+			b, _ := json.Marshal(v)
+			in = string(b)
+			if r.Chance(0.1) {
+				in = in[:r.Intn(len(in)+1)] // truncated document
+			}
 		}
 		if !x.Announce(string(kind) + in) {
 			continue
@@ -454,7 +490,43 @@ func runJSON(x *core.Ctx) {
 		fe := &frontEnd{x: x}
 		switch kind {
 		case 'L':
-			fe.call("json->LambdaNode", in, func() error { var n ast.LambdaNode; return json.Unmarshal([]byte(in), &n) })
+			fe.call("json->LambdaNode", in, func() error {
+				var n ast.LambdaNode
+				if err := json.Unmarshal([]byte(in), &n); err != nil {
+					return err
+				}
+				// an accepted document must also be usable: compile it and evaluate it on a few points
+				// (errors are fine, a panic is what kills the node that holds the lambda)
+				if n.Expression == nil {
+					return nil
+				}
+				e, err := stateful.NewExpression(n.Expression)
+				if err != nil {
+					return err
+				}
+				for _, sc := range []map[string]interface{}{
+					{"a": int64(2), "s": "abb", "b": true, "i": int64(3), "x": 1.5},
+					{"a": 2.5, "s": "", "b": false, "i": int64(0), "x": time.Minute},
+					{"s": "zzz"},
+				} {
+					scope := stateful.NewScope()
+					for _, name := range ast.FindReferenceVariables(n.Expression) {
+						if v, ok := sc[name]; ok {
+							scope.Set(name, v)
+						} else {
+							scope.Set(name, ast.MissingValue)
+						}
+					}
+					// nodes evaluate predicates with EvalBool (no recovery of its own); Eval turns a
+					// runtime panic into an error text, which is just as much a crash of the evaluator
+					if _, err := e.Eval(scope); err != nil && strings.HasPrefix(err.Error(), "runtime error:") {
+						panic("Eval of an accepted lambda document: " + err.Error())
+					}
+					e.EvalBool(scope)
+				}
+				x.Count("json_lambdas_accepted_and_evaluated", 1)
+				return nil
+			})
 		case 'P':
 			fe.call("json->ProgramNode", in, func() error { var n ast.ProgramNode; return json.Unmarshal([]byte(in), &n) })
 		case 'Q':
@@ -464,6 +536,46 @@ func runJSON(x *core.Ctx) {
 			return
 		}
 	}
+}
+
+// setNthKey replaces the value of the n-th object key (depth first, keys sorted) of the document;
+// false if there are fewer keys.
+func setNthKey(v *interface{}, n int, repl interface{}) bool {
+	count := 0
+	var walk func(p interface{}) bool
+	walk = func(p interface{}) bool {
+		switch t := p.(type) {
+		case map[string]interface{}:
+			keys := make([]string, 0, len(t))
+			for k := range t {
+				keys = append(keys, k)
+			}
+			sort.Strings(keys)
+			for _, k := range keys {
+				if count == n {
+					if repl == "DELETE" {
+						delete(t, k)
+					} else {
+						t[k] = repl
+					}
+					count++
+					return true
+				}
+				count++
+				if walk(t[k]) {
+					return true
+				}
+			}
+		case []interface{}:
+			for _, e := range t {
+				if walk(e) {
+					return true
+				}
+			}
+		}
+		return false
+	}
+	return walk(*v)
 }
 
 // mutateJSON changes k random places of the document.
